@@ -59,7 +59,27 @@ Proof. exact delivery_reentrant. Qed.
 Theorem C17_no_deadlock : forall ls, run ls <> Deadlocked.
 Proof. exact no_deadlock. Qed.
 
-(* the same as the executable predicate the harness evaluates on the implementation's log *)
+(* every message on EVERY connection of ANY schedule — in particular on a connection that a bare
+   RetryClient user has already replaced with SetClient but that is still open (make-before-break):
+   it is handed to the handler the history entitles it to, [entitled]: the registered handler if
+   the connection is the current one, otherwise the handler last put on that client (by Connect's
+   install section or by a Handle call while it was current). It is never dropped because of the
+   replacement. [spec_every] is the whole log; V_seq / V_race / V_stress evaluate exactly it *)
+Theorem C17_delivery_every_connection : forall pre k m post s evs,
+  run (pre ++ B_inbound k m :: post) = Next s evs ->
+  nth_error evs (count_inbound pre) = Some (Deliver k m (entitled (hist_of pre) k)).
+Proof. exact delivery_any_connection. Qed.
+
+Theorem C17_delivery_every : forall ls s evs, run ls = Next s evs -> evs = spec_every ls.
+Proof. exact delivery_every. Qed.
+
+(* ... and what a replaced client was left with is frozen: no later step of any kind changes it *)
+Theorem C17_replaced_connection_frozen : forall ls l k,
+  h_cur (hist_of ls) <> Some k -> (k < length (h_inst (hist_of ls)))%nat ->
+  installed_of (ls ++ [l]) k = installed_of ls k.
+Proof. exact replaced_frozen. Qed.
+
+(* the current-connection claim as an executable predicate *)
 Theorem C17_delivery_predicate : forall ls s evs,
   run ls = Next s evs -> meets (spec_current ls) evs = true.
 Proof. exact delivery_meets. Qed.
@@ -82,8 +102,9 @@ Theorem C17_never_dropped : forall pre k m post s evs h,
   nth_error evs (count_inbound pre) = Some (Deliver k m (Some h)).
 Proof. exact loop_never_dropped. Qed.
 
-(* scope: a bare RetryClient user who calls SetClient while the previous connection is still read
-   gets messages of the REPLACED connection on its old handler; the loop never produces this *)
+(* scope witness: a bare RetryClient user who calls SetClient while the previous connection is still
+   read gets messages of the REPLACED connection on that connection's old handler (delivered, by
+   C17_delivery_every_connection, but not to the newest handler); the loop never produces this *)
 Theorem C17_stale_on_replaced_connection :
   exists ls s, run ls = Next s [Deliver 0 7 (Some 1)] /\ spec_events ls = [Deliver 0 7 (Some 2)] /\
                run_loop ls = Disabled.
@@ -114,6 +135,9 @@ Print Assumptions C17_invariant.
 Print Assumptions C17_delivery.
 Print Assumptions C17_delivery_reentrant.
 Print Assumptions C17_no_deadlock.
+Print Assumptions C17_delivery_every_connection.
+Print Assumptions C17_delivery_every.
+Print Assumptions C17_replaced_connection_frozen.
 Print Assumptions C17_delivery_predicate.
 Print Assumptions C17_reconnect_transparent.
 Print Assumptions C17_never_dropped.
